@@ -47,7 +47,9 @@ def cell_rep(v):
     except Exception:
         pass
     if isinstance(v, bool) or type(v).__name__ == "bool_":
-        return "b:" + str(bool(v))
+        # True == 1 and False == 0: tables that differ only in bool-vs-number representation are equal in the
+        # property's sense and are never asserted either way
+        return "n:" + repr(float(bool(v)))
     if isinstance(v, (int,)) or "int" in type(v).__name__:
         return "n:" + repr(float(v))
     if isinstance(v, float) or "float" in type(v).__name__:
@@ -289,13 +291,22 @@ def history(b, ec, rng, length):
     model = {}
     # key pool: base maps and perturbed variants
     pool = []
+    pool_keys = set()
+
+    def add(dmx):
+        # pool members are pairwise different in the property's sense, so the exact-content model is unambiguous
+        k = canon_map(realize(dmx))
+        if k not in pool_keys:
+            pool_keys.add(k)
+            pool.append(dmx)
+
     for _ in range(2):
         dm = gen_map(rng, False)
-        pool.append(dm)
+        add(dm)
         for _ in range(2):
             p = perturb(rng, dm)
-            if p is not None and canon_map(realize(p[1])) != canon_map(realize(dm)):
-                pool.append(p[1])
+            if p is not None:
+                add(p[1])
     returned = []
     stored_src = []
     opnames = []
